@@ -553,7 +553,8 @@ theorem chargeLoop_frame (ops : Ops α B) (env : Env α) (v : VehicleS α B) (ts
     (sorted : List (α × Nat)) :
     ∀ (fuel : Nat) (st st' : VSt α B), chargeLoop ops env v ts sorted fuel st = .ok st' →
       (st'.bat = st.bat ∧ st'.gc = st.gc ∧ st'.cs = st.cs ∧ st'.cmds = st.cmds ∧ st'.dis = st.dis) ∨
-      (∃ j cost, st.sortedIdx ≤ j ∧ sorted[j]? = some (cost, 0) ∧ j < st'.sortedIdx ∧
+      (∃ j cost s, st.sortedIdx ≤ j ∧ sorted[j]? = some (cost, s) ∧
+        (samePrice env sorted j cost s).1.contains 0 = true ∧ j < st'.sortedIdx ∧
         st'.dis = st.dis) := by
   intro fuel
   induction fuel with
@@ -591,26 +592,26 @@ theorem chargeLoop_frame (ops : Ops α B) (env : Env α) (v : VehicleS α B) (ts
                   simp only [Except.ok.injEq] at h
                   subst h
                   right
-                  simp only [Bool.and_eq_true, beq_iff_eq] at hcond
+                  simp only [Bool.and_eq_true] at hcond
                   obtain ⟨h0, _⟩ := hcond
-                  subst h0
-                  exact ⟨st.sortedIdx, cost, le_refl _, hsorted,
-                    by have := samePrice_next env sorted st.sortedIdx cost 0; exact this, rfl⟩
-              · rcases ih _ st' h with hfr | ⟨j, c, hj, hsj, hlt, hdis⟩
+                  exact ⟨st.sortedIdx, cost, startIdx, le_refl _, hsorted, h0,
+                    by have := samePrice_next env sorted st.sortedIdx cost startIdx; exact this, rfl⟩
+              · rcases ih _ st' h with hfr | ⟨j, c, s, hj, hsj, hc0, hlt, hdis⟩
                 · exact Or.inl hfr
                 · right
-                  refine ⟨j, c, ?_, hsj, hlt, hdis⟩
+                  refine ⟨j, c, s, ?_, hsj, hc0, hlt, hdis⟩
                   have := samePrice_next env sorted st.sortedIdx cost startIdx
                   have hj' : (samePrice env sorted st.sortedIdx cost startIdx).2 ≤ j := hj
                   omega
 
-/-- if the price group at the head of the order does not start with the current timestep and the
+/-- if the price group at the head of the order does not contain the current timestep and the
 simulated SoC after planning that group meets the target of the next price level (or there is none),
 the planning loop ends without booking anything: only `power`, the simulated battery and the loop
 index change -/
 theorem chargeLoop_cheapest_suffices (ops : Ops α B) (env : Env α) (v : VehicleS α B)
     (ts : List (TS α)) (sorted : List (α × Nat)) (fuel : Nat) (st : VSt α B) (c0 : α) (s0 : Nat)
-    (hs : sorted[st.sortedIdx]? = some (c0, s0)) (hne : s0 ≠ 0)
+    (hs : sorted[st.sortedIdx]? = some (c0, s0))
+    (hne : (samePrice env sorted st.sortedIdx c0 s0).1.contains 0 = false)
     (hnot : ¬ desiredAt env v c0 ≤ ops.soc st.sim)
     (pw1 : List α) (sm1 : B)
     (h1 : naivePass ops st.cs v.minChargingPower ts (samePrice env sorted st.sortedIdx c0 s0).1
@@ -630,9 +631,8 @@ theorem chargeLoop_cheapest_suffices (ops : Ops α B) (env : Env α) (v : Vehicl
   unfold chargeLoop
   simp only [hs, if_neg hnot, bind, Except.bind, h1]
   simp only [h2, List.head?_cons]
-  have hcond : (s0 == 0 && !isZero p0) = false := by
-    have : (s0 == 0) = false := by simpa using hne
-    simp [this]
+  have hcond : ((samePrice env sorted st.sortedIdx c0 s0).1.contains 0 && !isZero p0) = false := by
+    rw [hne]; rfl
   simp only [hcond, Bool.false_eq_true, if_false]
   unfold chargeLoop
   cases hn : sorted[(samePrice env sorted st.sortedIdx c0 s0).2]? with
@@ -641,6 +641,39 @@ theorem chargeLoop_cheapest_suffices (ops : Ops α B) (env : Env α) (v : Vehicl
     obtain ⟨c1, s1⟩ := e
     have := hnext c1 s1 hn
     exact ⟨0, by simp only [hn, if_pos this]⟩
+
+/-- (repair BM1) if the price group being planned contains the current timestep and its planned power
+is not zero, that pass books the real charge `load(target_power = power[0])` — whether or not the
+current timestep is the first member of the group -/
+theorem chargeLoop_present_in_group (ops : Ops α B) (env : Env α) (v : VehicleS α B)
+    (ts : List (TS α)) (sorted : List (α × Nat)) (fuel : Nat) (st : VSt α B) (c0 : α) (s0 : Nat)
+    (hs : sorted[st.sortedIdx]? = some (c0, s0))
+    (hin : (samePrice env sorted st.sortedIdx c0 s0).1.contains 0 = true)
+    (hnot : ¬ desiredAt env v c0 ≤ ops.soc st.sim)
+    (pw1 : List α) (sm1 : B)
+    (h1 : naivePass ops st.cs v.minChargingPower ts (samePrice env sorted st.sortedIdx c0 s0).1
+      st.power st.sim = .ok (pw1, sm1))
+    (p0 : α) (rest : List α) (sm2 : B)
+    (h2 : (if desiredAt env v c0 ≤ ops.soc sm1 then
+        bisect ops env.eps st.cs v.minChargingPower ts (samePrice env sorted st.sortedIdx c0 s0).1
+          (ops.soc st.sim) (desiredAt env v c0) bisectFuel 0 st.cs.maxPower false pw1 sm1
+      else pure (pw1, sm1)) = .ok (p0 :: rest, sm2))
+    (hp0 : p0 ≠ 0) (bat' : B) (avg : α)
+    (hl : ops.load st.bat none none (some p0) = .ok (bat', avg)) :
+    chargeLoop ops env v ts sorted (fuel + 1) st =
+      .ok ({ st with sortedIdx := (samePrice env sorted st.sortedIdx c0 s0).2, power := p0 :: rest,
+                     sim := sm2, bat := bat' }.book avg) := by
+  unfold desiredAt at hnot h2
+  unfold chargeLoop
+  simp only [hs, if_neg hnot, bind, Except.bind, h1]
+  simp only [h2, List.head?_cons]
+  have hz : isZero p0 = false := by
+    rcases h : isZero p0 with _ | _
+    · rfl
+    · exact absurd ((isZero_iff p0).mp h) hp0
+  have hcond : ((samePrice env sorted st.sortedIdx c0 s0).1.contains 0 && !isZero p0) = true := by
+    rw [hin, hz]; rfl
+  simp only [hcond, if_true, hl]
 
 /-! ### cheapest first: the order in which the timesteps are planned -/
 
